@@ -61,6 +61,17 @@ PROPS = {
         'level_text': 'Verus proves on the real sighash_legacy body (four loops, rules R6/R13) that for the six legacy flags the returned bytes equal preimage_legacy(contents, index, flag, subscript-without-any-code-separator) written from the original SignatureHash: other scripts blanked, NONE/SINGLE output and sequence rewriting, ANYONECANPAY isolation, 4-byte LE type; Err exactly for an out-of-range index or SINGLE without a matching output; the receiver is untouched. Script::strip_codeseparators is proved to remove separators at every nesting depth.',
         'level_note': TB,
     },
+    'C13': {
+        'units': {
+            'hash_glue': ['*'],
+        },
+        'assumptions': [SHA, 'the sha2 / sha-1 / ripemd160 / hmac / pbkdf2 crates compute the published algorithms (spec_sha256, spec_hmac::<H>, spec_pbkdf2::<PRF> are uninterpreted): equality with reference implementations is NOT decided by this technique',
+                        'digest::Digest blanket impl == Default + update + finalize_fixed of the implementing type',
+                        'Hmac<T>::new_from_slice accepts every key length'],
+        'design_ref': 'DESIGN.md section 4 C13',
+        'level_text': 'Composition only: Verus proves on the real wrapper bodies that each one-shot function returns the named composition (sha_256d = sha256 o sha256, hash_160 = ripemd160 o sha256), that Hash::hmac keys the MAC with its SECOND argument and feeds the first as message for all six instantiations, that the streaming adapters absorb by concatenation (so any chunking gives the same digest), finalise to the composition of what was absorbed, reverse exactly when the flag is set, and reset to empty, and that PBKDF2 dispatches to the PRF named by the enum, returns output_length bytes and stores the salt. The primitives themselves are uninterpreted.',
+        'level_note': TB + ' Cryptographic primitives are assumed, not verified.',
+    },
     'C04': {
         'units': {
             'tx_cache': ['*'],
@@ -82,7 +93,6 @@ NOT_CLAIMED = {
     'C09': 'not reached yet',
     'C11': 'not reached yet',
     'C12': 'not reached yet',
-    'C13': 'not reached yet',
     'C14': 'not reached yet',
     'C15': 'not reached yet',
     'C16': 'not reached yet',
